@@ -83,7 +83,12 @@ def _setup(V, accel, depth, tag=""):
     values = np.arange(depth, dtype=np.int8).reshape(1, 1, 1, depth)  # weight value == its output channel
     wt = _Obj(name="w" + tag, values=values, value_id="wid" + tag, equivalence_id="weq", quantization=_Obj(scale_f32=1.0, zero_point=0), mem_area=MemArea.Dram,
               mem_type=MemType.Permanent_NPU)
-    cons = _Obj(get_input_quantization=lambda: None, get_output_quantization=lambda: None)
+    import types
+    from ethosu.vela.operation import Operation
+
+    cons = _Obj(ifm=_Obj(quantization=None), ofm=_Obj(quantization=None), forced_input_quantization=None, forced_output_quantization=None)
+    cons.get_input_quantization = types.MethodType(Operation.get_input_quantization, cons)  # the real getters, nothing forced, tensors unquantised
+    cons.get_output_quantization = types.MethodType(Operation.get_output_quantization, cons)
     st = _Obj(name="b" + tag, value_id="bid" + tag, equivalence_id="beq", consumer_list=[cons], mem_area=MemArea.Dram, mem_type=MemType.Permanent_NPU, element_size_bytes=0)
     op = _Obj(type=Op.Conv2DBias, inputs=[_Obj(dtype=DataType.int8)], explicit_scaling=None)
     return arch, op, wt, st, Kernel(1, 1)
@@ -299,7 +304,10 @@ def scale_cache_key(V, diff):
         raise core.PathAbort("replay values outside the assumptions")
 
     def scale_tensor(ifm_scale, ofm_scale, vid):
-        cons = _Obj(get_input_quantization=lambda: _Obj(scale_f32=ifm_scale, zero_point=0), get_output_quantization=lambda: _Obj(scale_f32=ofm_scale, zero_point=0))
+        from harness.c09 import real_quant_methods
+
+        cons = _Obj()
+        real_quant_methods(V, cons, _Obj(scale_f32=ifm_scale, zero_point=0), _Obj(scale_f32=ofm_scale, zero_point=0))
         return _Obj(**dict(st.__dict__, consumer_list=[cons], value_id=vid))
 
     st1 = scale_tensor(s_in, s_out, "bias_values_1")
